@@ -149,6 +149,31 @@ pub fn gen(out: &mut Out, thorough: bool) {
         out.count_n("wide_distinct_key_multiset_pairs", n);
         out.exhaustive.push(format!("for every object size in {:?}: all ordered pairs of {{all keys distinct, one key repeated, another key repeated, repeated with a different value, the two values swapped}}, one side shuffled", sizes));
     }
+    // SCALE: one key occurring N = 2^8, 2^12 (+-1, 5000; thorough 2^14) times with pairwise distinct
+    // values, and N distinct keys: the object against itself, against its reversal, against a copy with
+    // one value changed at the end (a cap on the candidates scanned, a size-dependent shortcut)
+    {
+        let mut n = 0u64;
+        for &cnt in (if thorough { &[255usize, 256, 257, 4095, 4096, 4097, 5000, 16385][..] } else { &[257usize, 4097, 5000][..] }) {
+            let dup = |rev: bool, change: Option<usize>| -> String {
+                let idx: Vec<usize> = if rev { (0..cnt).rev().collect() } else { (0..cnt).collect() };
+                format!("{{{}}}", idx.iter().map(|&i| format!("k6b;#{};", if change == Some(i) { "2d.31".to_string() } else { cps_inner(&i.to_string()) })).collect::<String>())
+            };
+            let dis = |rev: bool, change: Option<usize>| -> String {
+                let idx: Vec<usize> = if rev { (0..cnt).rev().collect() } else { (0..cnt).collect() };
+                format!("{{{}}}", idx.iter().map(|&i| format!("k6b.{:x};#{:x};", 0x100 + i, if change == Some(i) { 0x39 } else { 0x30 + i % 9 })).collect::<String>())
+            };
+            for (a, b) in [(dup(false, None), dup(false, None)), (dup(false, None), dup(true, None)), (dup(true, None), dup(false, Some(cnt - 1))), (dup(false, Some(0)), dup(true, None)),
+                           (dis(false, None), dis(true, None)), (dis(false, None), dis(true, Some(cnt - 1))), (dis(false, Some(cnt / 2)), dis(false, None))] {
+                l(format!("ueq {} {}", a, b), out);
+                n += 1;
+            }
+            l(format!("ueq [n{}] [n{}]", dup(false, None), dup(true, None)), out);
+            n += 1;
+        }
+        out.count_n("scale_pairs", n);
+        out.exhaustive.push("scale: objects with 2^8 / 2^12 (+-1, 5000) occurrences of one key (pairwise distinct values) and as many distinct keys: against themselves, their reversal, and copies with one value changed at the end / start / middle".into());
+    }
     // random large values: shuffles must be equal, single-leaf mutations must differ
     let m = if thorough { 300000 } else { 3000 };
     for _ in 0..m {
